@@ -226,10 +226,38 @@ def Crown.leaves : Crown → List (Path × Leaf)
 where
   goD : List (String × Crown) → List (Path × Leaf)
     | [] => []
-    | (k, c) :: r => (Crown.leaves c).map (fun (p, l) => (Key.s k :: p, l)) ++ goD r
+    | (k, c) :: r => (Crown.leaves c).map (fun x => (Key.s k :: x.1, x.2)) ++ goD r
   goL : Nat → List Crown → List (Path × Leaf)
     | _, [] => []
-    | i, c :: r => (Crown.leaves c).map (fun (p, l) => (Key.i i :: p, l)) ++ goL (i + 1) r
+    | i, c :: r => (Crown.leaves c).map (fun x => (Key.i i :: x.1, x.2)) ++ goL (i + 1) r
+
+/-- all leaves of an input crown with their paths -/
+def InpCrown.leaves : InpCrown → List (Path × Leaf)
+  | .dict m _ => goD m
+  | .list m _ => goL 0 m
+  | .field id => [([], .field id)]
+  | .none => [([], .none)]
+where
+  goD : List (String × InpCrown) → List (Path × Leaf)
+    | [] => []
+    | (k, c) :: r => (InpCrown.leaves c).map (fun x => (Key.s k :: x.1, x.2)) ++ goD r
+  goL : Nat → List InpCrown → List (Path × Leaf)
+    | _, [] => []
+    | i, c :: r => (InpCrown.leaves c).map (fun x => (Key.i i :: x.1, x.2)) ++ goL (i + 1) r
+
+/-- all leaves of an output crown with their paths (a gap leaf keeps its placeholder in `OutCrown`) -/
+def OutCrown.leaves : OutCrown → List (Path × Leaf)
+  | .dict m _ => goD m
+  | .list m => goL 0 m
+  | .field id => [([], .field id)]
+  | .none _ => [([], .none)]
+where
+  goD : List (String × OutCrown) → List (Path × Leaf)
+    | [] => []
+    | (k, c) :: r => (OutCrown.leaves c).map (fun x => (Key.s k :: x.1, x.2)) ++ goD r
+  goL : Nat → List OutCrown → List (Path × Leaf)
+    | _, [] => []
+    | i, c :: r => (OutCrown.leaves c).map (fun x => (Key.i i :: x.1, x.2)) ++ goL (i + 1) r
 
 def InpCrown.skel : InpCrown → Crown
   | .dict m _ => .dict (goD m)
